@@ -168,6 +168,10 @@ func (p *Program) globalFor(v *types.Var) *ssa.Global {
 // immutableGlobal reports whether a package-level variable is never stored to
 // outside its package's init function.
 func (p *Program) immutableGlobal(g *ssa.Global) bool {
+	if strings.HasPrefix(g.Name(), "verif") {
+		// ghost state declared in a verif-tagged file: only contracts change it
+		return false
+	}
 	sp := g.Pkg
 	p.build(sp)
 	p.mu.Lock()
@@ -357,7 +361,7 @@ func (p *Program) knownPure(key string) bool {
 	}
 	for _, pre := range []string{"fmt.Sprint", "fmt.Errorf", "errors.", "strings.", "strconv.", "bytes.Equal", "bytes.Compare", "bytes.HasPrefix", "bytes.Index",
 		"unicode.", "utf8.", "unicode/utf8.", "math.", "math/bits.", "time.Now", "time.Since", "time.Duration", "(time.", "slices.", "sort.Search", "hash/crc32.ChecksumIEEE", "path.", "path/filepath.",
-		"(*sync.Mutex)", "(*sync.RWMutex)", "(sync.", "sync.", "(*sync.", "runtime.", "encoding/hex.", "encoding/base64.", "os.Getenv", "reflect.DeepEqual",
+		"(*sync.Mutex)", "(*sync.RWMutex)", "(sync.", "sync.", "(*sync.", "runtime.", "encoding/hex.", "encoding/base64.", "os.Getenv", "reflect.DeepEqual", "github.com/pkg/errors.",
 		"(*github.com/WuKongIM/WuKongIM/pkg/wklog", "github.com/WuKongIM/WuKongIM/pkg/wklog", "go.uber.org/zap", "(*go.uber.org/zap", "(go.uber.org/zap", "log.", "(*log.",
 		// external storage engine: its calls return unconstrained values and never write WuKongIM's own heap objects
 		"github.com/cockroachdb/pebble",
